@@ -10,13 +10,15 @@
           bus-owner specification built from the C04 and C03 specification machines; its three sources are never
           valid together; every completed maximal tx_valid run hands the PHY exactly one well-formed packet
           (a handshake byte, or PID ++ payload ++ CRC16(payload));
-     7    the boolean packet checker used by the run-time observers decides the declarative predicate wf_tx_packet.
+     7    the boolean packet checker used by the run-time observers decides the declarative predicate wf_tx_packet;
+     9    for the bulk/interrupt IN endpoint model (C11's InXfer): handshake request and data request never coincide and
+          are made only in response to an answerable IN token for the endpoint (one instance of the discipline's origin).
    What is only MONITORED on simulator runs of the complete device (props/C20.py, observers c20_wire_mon / c20_disc_mon):
      that the endpoints respect the request discipline, that every transmission is solicited by a token / data packet
      addressed to the device, and that it never overlaps rx_active.  These are not proved.                          *)
 From Coq Require Import NArith List Bool. Import ListNotations.
 From LunaLib Require Import Netlist Machine.
-From LunaModel Require Import Crc Handshake Usb2DataTx TokenDet C20_TxPath C20_TxPath_proofs.
+From LunaModel Require Import Crc Handshake Usb2DataTx TokenDet InXfer C20_TxPath C20_TxPath_proofs.
 Open Scope N_scope.
 
 (* 1. exactly one source valid (or-signals of the others low): the multiplexer output is that source, for any
@@ -70,6 +72,23 @@ Print Assumptions C20_checker_correct.
 Theorem C20_observer_packing : forall s, w_wf s -> w_dec (w_enc s) = s.
 Proof. exact w_dec_enc. Qed.
 Print Assumptions C20_observer_packing.
+
+(* 9. where the discipline comes from, for the one kind of endpoint whose model exposes both request lines (bulk /
+      interrupt IN, Model/InXfer.v): its NAK request and its data request never coincide; each is made only in
+      response to an answerable IN token for the endpoint (the data packet in that cycle -- zero length -- or the next) *)
+Theorem C20_bulk_in_requests_exclusive : forall mps ep st i,
+  let o := ix_outf mps ep st i in o_nak o && o_valid o = false.
+Proof. exact inxfer_requests_exclusive. Qed.
+Print Assumptions C20_bulk_in_requests_exclusive.
+
+Theorem C20_bulk_in_requests_triggered : forall fa fr mps ep st i,
+  (o_nak (ix_outf mps ep st i) = true -> tok ep i = true) /\
+  (x_fsm st <> SEND -> o_valid (ix_outf mps ep st i) = true -> tok ep i = true) /\
+  (x_fsm st <> SEND -> x_fsm (ix_next fa fr mps ep st i) = SEND -> tok ep i = true).
+Proof.
+  intros. split; [apply inxfer_nak_trigger | split; [apply inxfer_zlp_trigger | apply inxfer_data_trigger]].
+Qed.
+Print Assumptions C20_bulk_in_requests_triggered.
 
 (* ---- concrete runs (non-vacuity) ---------------------------------------------------------------------- *)
 (* request word: ack nak stall | dpid | valid first last | payload | tx_ready | rx_valid *)
